@@ -254,6 +254,13 @@ Proof.
     apply b58_len_le; [exact Hnz | lia |]. cbn [length]. rewrite HL'. apply Z.leb_le. vm_compute. reflexivity.
 Qed.
 
+Lemma xk_checked :
+  Nat.eqb (length (raw ++ ck)) 82 && b58_checksum_ok (droplast 4 (raw ++ ck)) (lastn 4 (raw ++ ck)) = true.
+Proof.
+  rewrite xk_raw_len, (droplast_app_exact raw ck 4 xk_ck_len), (lastn_app_exact raw ck 4 xk_ck_len).
+  unfold ck. rewrite sha256d_check4. reflexivity.
+Qed.
+
 Lemma xk_first4 : firstn 4 (raw ++ ck) = prefix.
 Proof. rewrite xk_raw_eq. apply firstn_app_exact. apply xk_prefix_len. Qed.
 
@@ -341,6 +348,8 @@ Proof.
     match b58_bytes fold s with
     | None => Err EOther
     | Some bkey =>
+        if negb (Nat.eqb (length bkey) 82 && b58_checksum_ok (droplast 4 bkey) (lastn 4 bkey)) then Err EKey
+        else
         match xkey_fields bkey with
         | None => Err EOther
         | Some (pub, key0, depth0, fp0, child0, chain0) =>
@@ -356,7 +365,7 @@ Proof.
     Ok (xkey_obj priv key c nw chain depth fp child
           (match prefix_witness prefix, wthint with [w], None => w | _, Some w => w | _, None => default_witness end)
           (match prefix_multisig prefix with [m] => m | _ => mshint end))).
-  { rewrite xk_bytes, xk_fields, (xk_inner nw c Hdef). unfold xkey_obj. f_equal. f_equal.
+  { rewrite xk_bytes, xk_checked, xk_fields, (xk_inner nw c Hdef). cbn [negb]. unfold xkey_obj. f_equal. f_equal.
     destruct (prefix_witness prefix) as [|w [|w' l]]; destruct wthint; reflexivity. }
   destruct EF as [-> | ->]; exact Hbody.
 Qed.
@@ -373,6 +382,7 @@ Theorem xkey_from_wif_lemma hint mshint c :
   end.
 Proof.
   unfold lib_hdkey_from_wif. rewrite xk_bytes, xk_raw_len. cbn [Nat.eqb negb].
+  pose proof xk_checked as Hck. rewrite xk_raw_len in Hck. cbn [Nat.eqb andb] in Hck. rewrite Hck. cbn [negb].
   rewrite xk_fields, xk_first4.
   destruct (lib_wif_prefix_search prefix None mshint hint) as [|m l] eqn:E; [reflexivity|].
   assert (Hm : In m (lib_wif_prefix_search prefix None mshint hint)) by (rewrite E; left; reflexivity).
